@@ -27,11 +27,20 @@ def client_ctx(min_version=None, max_version=None):
     return ctx
 
 class MemTCP:
-    def __init__(self, peer=("192.0.2.9", 4000)):
+    """Fake TCP transport.  With flow=True it behaves like an asyncio transport with write flow control: it calls the protocol's
+    pause_writing() when more than HIGH bytes are buffered and resume_writing() once the reader has drained it below LOW."""
+    HIGH, LOW = 65536, 16384
+    def __init__(self, peer=("192.0.2.9", 4000), flow=False):
         self.out = bytearray(); self.closed = False; self.peer = peer; self.writes = []
+        self.flow = flow; self.proto = None; self.paused = False; self.pauses = 0
     def write(self, b):
         if not self.closed:
             self.out += b; self.writes.append(len(b))
+            if self.flow and self.proto is not None and not self.paused and len(self.out) > self.HIGH:
+                self.paused = True; self.pauses += 1; self.proto.pause_writing()
+    def drained(self):
+        if self.flow and self.proto is not None and self.paused and len(self.out) <= self.LOW:
+            self.paused = False; self.proto.resume_writing()
     def close(self): self.closed = True
     def abort(self): self.closed = True
     def _force_close(self, exc): self.closed = True
@@ -40,10 +49,11 @@ class MemTCP:
 
 class Pair:
     """client <-> TLSServerProtocol(inner_factory).  Everything is synchronous."""
-    def __init__(self, inner_factory, request_client_cert=True, cctx=None):
+    def __init__(self, inner_factory, request_client_cert=True, cctx=None, flow=False):
         from nauyaca.server.tls_protocol import TLSServerProtocol
-        self.tcp = MemTCP()
+        self.tcp = MemTCP(flow=flow)
         self.server = TLSServerProtocol(inner_factory, server_ctx(request_client_cert))
+        self.tcp.proto = self.server
         self.server.connection_made(self.tcp)
         self.client = SSL.Connection(cctx or client_ctx(), None)
         self.client.set_connect_state()
@@ -83,6 +93,31 @@ class Pair:
         return self.handshaken
     def client_send(self, data):
         self.client.sendall(data)
+    async def client_read_slowly(self, burst=40000):
+        """a slow / bursty reader: takes `burst` bytes of ciphertext at a time and lets the event loop run in between; the
+        transport resumes the protocol when its buffer has drained"""
+        import asyncio
+        for _ in range(100000):
+            if not self.tcp.out:
+                await asyncio.sleep(0)
+                if not self.tcp.out:
+                    break
+            n = min(burst, len(self.tcp.out))
+            self.client.bio_write(bytes(self.tcp.out[:n])); del self.tcp.out[:n]
+            self.tcp.drained()
+            await asyncio.sleep(0)
+            while True:
+                try:
+                    chunk = self.client.recv(65536)
+                    if not chunk: break
+                    self.plain += chunk
+                except SSL.WantReadError:
+                    break
+                except SSL.ZeroReturnError:
+                    self.eof = True; break
+                except SSL.Error:
+                    break
+        return bytes(self.plain)
     def client_read_all(self):
         self.to_client()
         while True:
